@@ -386,10 +386,18 @@ func (d *BFD) DecodeFromBytes(data []byte, df gopacket.DecodeFeedback) error {
 		case BFDAuthTypePassword:
 			d.AuthHeader.Data = BFDAuthData(data)
 		case BFDAuthTypeKeyedMD5, BFDAuthTypeMeticulousKeyedMD5:
+			if len(data) < 5 {
+				df.SetTruncated()
+				return errors.New("BFD authentication section too short")
+			}
 			// Skipped reserved byte
 			data, d.AuthHeader.SequenceNumber = data[5:], BFDAuthSequenceNumber(binary.BigEndian.Uint32(data[1:5]))
 			d.AuthHeader.Data = BFDAuthData(data)
 		case BFDAuthTypeKeyedSHA1, BFDAuthTypeMeticulousKeyedSHA1:
+			if len(data) < 5 {
+				df.SetTruncated()
+				return errors.New("BFD authentication section too short")
+			}
 			// Skipped reserved byte
 			data, d.AuthHeader.SequenceNumber = data[5:], BFDAuthSequenceNumber(binary.BigEndian.Uint32(data[1:5]))
 			d.AuthHeader.Data = BFDAuthData(data)
